@@ -42,8 +42,16 @@ func cmdRun(args []string) {
 	debug := fs.Bool("debug", false, "debug")
 	solver := fs.String("solver", "z3", "solver")
 	verbose := fs.Bool("v", false, "verbose")
+	tier := fs.String("tier", "", "quick|thorough")
+	variant := fs.Int("variant", 0, "thorough variant")
+	mid := fs.Bool("mid", false, "thorough tier at the intermediate bounds")
 	fs.Parse(args)
 	opts := defaultOptions()
+	if *tier != "" {
+		opts.Tier = *tier
+	}
+	opts.Variant = *variant
+	opts.Mid = *mid
 	opts.Debug = *debug
 	opts.Solver = *solver
 	t0 := time.Now()
